@@ -38,6 +38,20 @@ def main(tier, only=None):
                        "advances and stays <= the NUL, or a diagnostic is issued" % n]
         chk.assumptions += ["tok/step: the main loop's only state is the scan pointer and the at_bol/has_space flags (read off tokenize.c: locals p, cur; statics at_bol, has_space), so one iteration "
                             "from an arbitrary offset covers every iteration; strstr is a specification-level model (cbmc has none); error_at ends the path"]
+    if want("arith"):
+        import os
+        e1.run_set(chk, "c13/arith.c", [e1.H("h_additive", "arith/additive-operand-types-answered", unwind=10, timeout=600, native=False, object_bits=13,
+                                            desc="new_add/new_sub on every pair of operand type kinds")],
+                   extra_src=[os.path.join(vf.REPO, "type.c")])
+        chk.bounds += ["additive operators: new_add / new_sub on all 8 x 8 pairs of operand type kinds (int, long, double, pointer, array, struct, void, pointer to VLA row), symbolic selection"]
+    if want("driver"):
+        opts = ["-o", "-I", "-idirafter", "-include", "-x", "-MF", "-MT", "-MQ", "-Xlinker", "-D", "-U", "-L", "-cc1-input", "-cc1-output"]
+        hs = [e1.H("h_last_option", "driver/last-option-needs-argument/%s" % o.lstrip("-"), unwind=40, timeout=300, defines=("LASTOPT=\"%s\"" % o,),
+                   desc="`cc -c x.c %s`: usage diagnostic, no read beyond argv" % o) for o in opts]
+        import os
+        e1.run_set(chk, "c10/args.c", hs, workers=8, extra_src=[os.path.join(vf.REPO, "strings.c")])
+        chk.bounds += ["driver: each of the %d options that take an argument, given as the last word of the command line (no symbolic input: cbmc executes the real "
+                       "main()/parse_args() on each listed command line under its pointer checks)" % len(opts)]
     chk.bounds += ["#include operand: 6 operand-line shapes x 6 shapes of what macro expansion returns, over {identifier, string, <, >, number} (the code only distinguishes these token classes); termination claim = 'an operand is macro-expanded at most once' (assertion) + unwinding assertions",
                    "diagnostic location: every buffer of <= 6 bytes (all byte values) x every location"]
     chk.outside += ["whole-parser robustness on arbitrary token streams and 'every conforming program is accepted' (not decidable by bounded symbolic execution); "
